@@ -30,7 +30,11 @@ def lit(s):
 
 
 def B():
-    return union([lit(" "), lit("\t")])          # blank padding of the statement: space / tab
+    """blank padding of the statement ("any blank padding"): every white-space character that can occur
+    inside a line (Unicode \\s without the line-break characters), not only space / tab"""
+    lb = set(rx.linebreak_chars())
+    cs = [c for lo, hi in rx.category_ranges("CATEGORY_SPACE") for c in range(lo, hi + 1) if c not in lb]
+    return charset([(c, c) for c in cs], MARKS)
 
 
 def Bs():
@@ -38,7 +42,8 @@ def Bs():
 
 
 def D():
-    return z3.Range(ch("0"), ch("9"))
+    """a digit of the statement ("any digit strings"): every decimal digit int() decodes (Unicode \\d)"""
+    return charset(rx.category_ranges("CATEGORY_DIGIT"), MARKS)
 
 
 def Ds():
@@ -131,7 +136,7 @@ def check_recogniser(label, pattern, spec_variants, shape, timeout_ms, expect_gr
         o.backend = "ground"
         o.reason = f"pattern has {p.ngroups} groups, spec expects {expect_groups}"
         if o.status == "refuted":
-            o.model = {"pattern": pattern}
+            o.model = {"pattern": p.pattern}
         obs.append(o)
     # shape: nothing else is accepted (independent of how the pattern is itemised)
     if shape is not None:
